@@ -5,7 +5,7 @@ From Coq Require Import NArith List Bool.
 Import ListNotations.
 From Coq Require Import ZArith.
 From CXV Require Import Gen.TokTy Gen.ParserTables Parse.Balanced Gen.Blocks Parse.BlocksSM.
-From CXV Require Import Base.Regex Base.Cost Gen.LexRules Lex.PlyLoop Gen.StreamTables Stream.TokBuf Fmt.TokFmt PP.Filters Misc.ReprModel Gen.Schema Parse.Fold Parse.Declarator Parse.DeclSpec Parse.EnumList Parse.BaseClause Parse.NsHeader Parse.Specs Parse.VarStmt Parse.FnTail Parse.Init.
+From CXV Require Import Base.Regex Base.Cost Gen.LexRules Lex.PlyLoop Gen.StreamTables Stream.TokBuf Fmt.TokFmt PP.Filters Misc.ReprModel Gen.Schema Parse.Fold Parse.Declarator Parse.DeclSpec Parse.EnumList Parse.BaseClause Parse.NsHeader Parse.Specs Parse.VarStmt Parse.FnTail Parse.Init Parse.Members.
 Open Scope N_scope.
 
 Definition nlen {A} (l : list A) : N := N.of_nat (length l).
@@ -525,8 +525,38 @@ Definition run_var_stmt_i (args : list N) : list N :=
   | [] => [1; 0]
   end.
 
+(* 92 / 93: a field statement in a class / a typedef statement: declarator budget, then tokens.
+   Output: 0, rest length, count, nine flags (zeros for typedefs), then per declarator:
+   name, type length, type, bits (0 | 1 k), value (0 | 1 len tokens) *)
+Definition enc_members (l : list member) : list N :=
+  flat_map (fun p => let '(nm, t, bits, iv) := p in
+                     let e := enc_ty t in
+                     nm :: nlen e :: e ++ (match bits with Some k => [1; k] | None => [0] end) ++ enc_opt_tks iv) l.
+Definition run_field_stmt (args : list N) : list N :=
+  match args with
+  | n :: r =>
+      let toks := dec_tks r in
+      match field_stmt (N.to_nat n) (4 * length toks + 8) toks with
+      | DOk (m, l, rest) => 0 :: nlen rest :: nlen l :: enc_mods m ++ enc_members l
+      | DErr e => [1; e]
+      end
+  | [] => [1; 0]
+  end.
+Definition run_typedef_stmt (args : list N) : list N :=
+  match args with
+  | n :: r =>
+      let toks := dec_tks r in
+      match typedef_stmt (N.to_nat n) (4 * length toks + 8) toks with
+      | DOk (l, rest) => 0 :: nlen rest :: nlen l :: enc_mods mods0 ++ enc_members l
+      | DErr e => [1; e]
+      end
+  | [] => [1; 0]
+  end.
+
 Definition run_case (cmd : N) (args : list N) : list N :=
   match cmd, args with
+  | 93, _ => run_typedef_stmt args
+  | 92, _ => run_field_stmt args
   | 91, _ => run_var_stmt_i args
   | 90, _ => run_fn_stmt args
   | 89, _ => run_var_stmt args
